@@ -9,6 +9,7 @@ pub mod dvipos;
 pub mod expand;
 pub mod fontarith;
 pub mod hpack;
+pub mod inputfiles;
 pub mod knuthplass;
 pub mod lexer;
 pub mod liang;
